@@ -59,6 +59,31 @@ def run(c):
                                        "any session can reach them, so a session's behaviour may depend on other sessions"})
     rng = c.rng
     groups = []
+    if extra:
+        # directed search: sessions of the codec(s) whose object files hold the new objects, two or three at a time, each with callbacks and with
+        # source symbols missing, the others driven to their end from inside the first decoded-symbol callback and, separately, call by call
+        objs = " ".join(inv[g] for g in extra)
+        cods = [cd for cd, pat in ((1, "solomon_gf_2_8"), (2, "gf_2_m"), (2, "galois"), (2, "algebra"), (5, "2d_parity")) if pat in objs] or [1, 2, 3, 5]
+        if any(x in objs for x in ("ldpc", "it_decoding", "ml_", "matrix", "symbol", "linear_binary")):
+            cods = sorted(set(cods + [3, 5]))
+        for _ in range(150):
+            ns = rng.rng(2, 3)
+            reqs = []
+            for _s in range(ns):
+                q = sessions.gen_requests(rng, 1, codecs=[rng.choice(cods)])[0]
+                if q.k + q.r > 60:
+                    q.k, q.r = rng.rng(2, 8), rng.rng(3, 8)
+                    if q.codec == 3:
+                        q.p1 = 3
+                n = q.k + q.r
+                lost = rng.sample(range(q.k), min(q.k, rng.rng(1, min(q.k, q.r))))
+                q.esis = [e for e in range(n) if e not in lost]; rng.shuffle(q.esis)
+                if q.api == 1:
+                    q.esis = sorted(q.esis)
+                q.cb = rng.rng(1, 3); q.finish = 1
+                reqs.append(q)
+            total = sum(4 + q.r + len(q.esis) + 3 for q in reqs)
+            groups.append((reqs, [rng.below(ns) for _ in range(total)], "M" if rng.chance(2, 3) else ""))
     for _ in range(60 if c.tier == "quick" else 600):
         ns = rng.rng(2, 4)
         reqs = sessions.gen_requests(rng, 1, codecs=[rng.choice([1, 2, 3, 3, 5]) for _ in range(ns)])[:ns]
@@ -72,13 +97,18 @@ def run(c):
             sched = [i % ns for i in range(total * 2)]
         elif kind == 1:                                 # one session runs to the middle, then the others start
             sched = [0] * (total // 3) + sched
-        groups.append((reqs, sched))
+        nest = rng.chance(1, 3)          # a third of the groups also run the other sessions' calls from inside decoded-symbol callbacks
+        if nest:
+            for q in reqs:
+                if q.cb == 0:
+                    q.cb = rng.rng(1, 3)
+        groups.append((reqs, sched, "N" if nest else ""))
     mexe = vlib.build_c(c.snap, "drv_multi", "drv_multi.c")
     env = dict(os.environ, ASAN_OPTIONS="detect_leaks=0")
     # (a) interleaved: one driver process per group would hide cross-group state; run all groups in ONE process
     blob = ""
-    for reqs, sched in groups:
-        blob += "X %d %s\n" % (len(reqs), ",".join(map(str, sched))) + "".join(q.line() + "\n" for q in reqs)
+    for reqs, sched, nest in groups:
+        blob += "X %d %s%s\n" % (len(reqs), nest, ",".join(map(str, sched))) + "".join(q.line() + "\n" for q in reqs)
     rc, so, se = vlib.sh([mexe], input=blob, env=env, timeout=1800)
     inter = [l for l in so.splitlines() if l.startswith("R")]
     nexp = sum(len(g[0]) for g in groups)
@@ -105,6 +135,6 @@ def run(c):
     c.cov["distinct_nontrivial"] = len({q.line() for q in flat})
     c.cov["traces_validated_against_impl"] = n_ok
     c.cov["rule"] = ("groups of 2-4 sessions of mixed codecs (RS 2^8, RS 2^m, LDPC twice as likely, 2D parity), each a full life cycle cut into single API calls, interleaved by "
-                     "a random / alternating / delayed-start schedule, all groups in one process; each session is re-run alone in a fresh process and all observable tokens compared")
+                     "a random / alternating / delayed-start schedule (a third of the groups also nested: other sessions' calls run from inside decoded-symbol callbacks), all groups in one process; each session is re-run alone in a fresh process and all observable tokens compared")
     c.cov["samples"] = [flat[0].line()[:200], flat[-1].line()[:200]]
     c.trusted = vlib.BASE_TRUST + ["the locality hypothesis of the generic theorem is proved for LDPC configuration only; for the other API steps it rests on the C-vs-C comparison"]
